@@ -4,6 +4,7 @@
  * so that "/proc/<pid>/stat" is served from the case's table and the pid queries answer the case's pids.
  *
  *   filter <arghex> <self> <ppid> <pid=hex;pid=hex;...|[]>   ->   ok <drop|pass> <pids opened, in order|->
+ *   cfilter ... the same through snoopy_filtering_check_chain("exclude_spawns_of:<arg>") (arguments without ';')
  */
 #include "common.h"
 #include <fcntl.h>
@@ -12,6 +13,7 @@
 #include "snoopy.h"
 
 int snoopy_filter_exclude_spawns_of(char const * const arg);
+int snoopy_filtering_check_chain(char const * const filterChain);
 
 #define MAXT 64
 static struct { long pid; vbytes content; } tab[MAXT];
@@ -64,7 +66,8 @@ pid_t __wrap_getppid(void) { return active ? (pid_t)syn_ppid : __real_getppid();
 pid_t __wrap_getpid(void) { return active ? (pid_t)syn_self : __real_getpid(); }
 
 static void handle(int nf, char **f, FILE *out) {
-    if (!strcmp(f[0], "filter") && (nf == 5 || nf == 6)) {   /* a 6th field (the generator's abstract table) is for the spec only */
+    int via_chain = !strcmp(f[0], "cfilter");        /* the same call made by the filter chain walker: "exclude_spawns_of:<arg>" */
+    if ((!strcmp(f[0], "filter") || via_chain) && (nf == 5 || nf == 6)) {   /* a 6th field (the generator's abstract table) is for the spec only */
         vbytes arg = parse_bytes(f[1]);
         syn_self = strtol(f[2], 0, 10); syn_ppid = strtol(f[3], 0, 10);
         ntab = 0; nopened = 0;
@@ -76,9 +79,11 @@ static void handle(int nf, char **f, FILE *out) {
             }
         }
         /* exact-size heap copy of the argument so that ASan sees any overread */
-        char *a = malloc(arg.n + 1); memcpy(a, arg.p, arg.n + 1);
+        static const char pre[] = "exclude_spawns_of:";
+        size_t off = via_chain ? sizeof pre - 1 : 0;
+        char *a = malloc(off + arg.n + 1); memcpy(a, pre, off); memcpy(a + off, arg.p, arg.n + 1);
         active = 1;
-        int r = snoopy_filter_exclude_spawns_of(a);
+        int r = via_chain ? snoopy_filtering_check_chain(a) : snoopy_filter_exclude_spawns_of(a);
         active = 0;
         free(a);
         fprintf(out, "ok\t%s\t", r == SNOOPY_FILTER_DROP ? "drop" : r == SNOOPY_FILTER_PASS ? "pass" : "other");
